@@ -108,7 +108,7 @@ double tdigest<T, A>::get_rank(T value) const {
   if (value < first_mean) {
     if (first_mean - min_ > 0) {
       if (value == min_) return 0.5 / centroids_weight_;
-      return (1.0 + (value - min_) / (first_mean - min_) * (centroids_.front().get_weight() / 2.0 - 1.0)); // ?
+      return (1.0 + (value - min_) / (first_mean - min_) * (centroids_.front().get_weight() / 2.0 - 1.0)) / centroids_weight_;
     }
     return 0; // should never happen
   }
@@ -167,8 +167,8 @@ T tdigest<T, A>::get_quantile(double rank) const {
     return min_ + (weight - 1.0) / (first_weight / 2.0 - 1.0) * (centroids_.front().get_mean() - min_);
   }
   const double last_weight = centroids_.back().get_weight();
-  if (last_weight > 1 && centroids_weight_ - weight <= last_weight / 2.0) {
-    return max_ + (centroids_weight_ - weight - 1.0) / (last_weight / 2.0 - 1.0) * (max_ - centroids_.back().get_mean());
+  if (last_weight > 2 && centroids_weight_ - weight <= last_weight / 2.0) {
+    return max_ - (centroids_weight_ - weight - 1.0) / (last_weight / 2.0 - 1.0) * (max_ - centroids_.back().get_mean());
   }
 
   // interpolate between extremes
